@@ -528,11 +528,20 @@ impl<const N: usize> FInt<N> {
             z[half + n] = carrymid - (carrylo + carryhi);
             // Combine result
             let carry1 = _add_slices(&mut z[0..n], blo);
-            debug_assert!(bhi[0] != !0);
-            bhi[0] += carry1; // cannot overflow
             let carry2 = _add_slices(&mut z[n..], bhi);
             // cannot overflow
             debug_assert!(carry2 == 0);
+            // The low word of bhi can be all ones: the carry of the low half
+            // has to ripple through the upper half.
+            if carry1 == 1 {
+                for zi in z[n..].iter_mut() {
+                    let (v, c) = zi.overflowing_add(1);
+                    *zi = v;
+                    if !c {
+                        break;
+                    }
+                }
+            }
         }
         fn mulbasic(z: &mut [u64], p: &[u64], q: &[u64]) {
             for i in 0..p.len() {
